@@ -90,6 +90,18 @@ def run(ctx):
             tid = 0
             try:
                 for ev in range(rng.randint(2, 8)):
+                    if rng.random() < 0.15:
+                        # the main loop re-creates the node's I/O instance (reinit after an io_config / io_class edit):
+                        # reservations of transfers in flight belong to the node, not to the instance
+                        before_r = sc.reserved()
+                        import alpenhorn.daemon.update as upd_
+                        db.StorageNode.update(io_config='{"reinit": %d}' % ev).where(db.StorageNode.id == sc.dst.id).execute()
+                        sc.un.reinit(db.StorageNode.get(id=sc.dst.id))
+                        ctx.count("reinit")
+                        if sc.reserved() != before_r:
+                            ctx.violation("reinit-forgets", f"re-creating the node's I/O instance changed the reserved total from {before_r} to "
+                                          f"{sc.reserved()} with {len(sc.live)} transfer(s) in flight", {"kind": "reserve", "ops": lines})
+                        continue
                     if sc.live and rng.random() < 0.5:
                         # finish the oldest live pull task by the path chosen at dispatch
                         t, how, f = sc.live.pop(0)
@@ -104,6 +116,10 @@ def run(ctx):
                             envmod.verif_dbext.CTL["fault_at"] = {rng.choice([2, 3, 4])}
                         try:
                             wharness.run_worker(sc.q, max_tasks=1) if False else run_one(sc)
+                        except Exception as ex:  # noqa -- an uncaught exception in a task aborts a real daemon
+                            ctx.violation("task-raised:" + type(ex).__name__, f"the pull task raised {type(ex).__name__}: {ex} "
+                                          f"(reserved total {sc.reserved()})", {"kind": "reserve", "ops": lines})
+                            break
                         finally:
                             envmod.verif_dbext.CTL["fault_at"] = set()
                         lines.append(f"r.finish {t} {how}")
@@ -143,7 +159,13 @@ def run(ctx):
                     if how == "alreadyPresent":
                         sc.w.copy(f, db.StorageNode.get(id=sc.dst.id), has="Y")
                     os.environ["PATH"] = os.path.join(wharness.FAKE, "none")
-                    run_one(sc)
+                    try:
+                        run_one(sc)
+                    except Exception as ex:  # noqa
+                        ctx.violation("task-raised:" + type(ex).__name__, f"the pull task raised {type(ex).__name__}: {ex} "
+                                      f"(reserved total {sc.reserved()})", {"kind": "reserve", "ops": lines})
+                        sc.live = []
+                        break
                     lines.append(f"r.finish {t} {how if not how.startswith('dbError') else 'success'}")
                     exp.append(f"{sc.reserved()} 0")
                 if sc.reserved() != 0:
